@@ -25,6 +25,11 @@ type SearchOptions struct {
 	UseFuzzy       bool               `json:"use_fuzzy,omitempty"`
 	FuzzyThreshold int                `json:"fuzzy_threshold,omitempty"`
 	UseNLP         bool               `json:"use_nlp,omitempty"`
+	// Every option that can change the answer must be part of the key
+	TopTermsCap     int      `json:"top_terms_cap,omitempty"`
+	AllPlatforms    bool     `json:"all_platforms,omitempty"`
+	Platforms       []string `json:"platforms,omitempty"`
+	NoCrossPlatform bool     `json:"no_cross_platform,omitempty"`
 }
 
 // SearchCache provides caching for search results
@@ -122,8 +127,10 @@ func (sc *SearchCache) CleanupExpired() int {
 
 // generateCacheKey creates a unique cache key for the query and options
 func (sc *SearchCache) generateCacheKey(query string, options SearchOptions) string {
-	// Normalize query for consistent caching
-	normalizedQuery := strings.ToLower(strings.TrimSpace(query))
+	// Normalize query for consistent caching. Only ASCII letter case is folded: the engine
+	// treats case variants alike, but not padded variants (the typo fallback matches the raw
+	// query) nor non-ASCII letters whose lower-case form is ASCII (U+0130, U+212A).
+	normalizedQuery := asciiLower(query)
 
 	// Create a deterministic key that includes all relevant options
 	keyData := struct {
@@ -144,6 +151,17 @@ func (sc *SearchCache) generateCacheKey(query string, options SearchOptions) str
 	// Generate SHA256 hash for compact key (more secure than MD5)
 	hash := sha256.Sum256(jsonData)
 	return fmt.Sprintf("%s%x", sc.keyPrefix, hash)
+}
+
+// asciiLower lower-cases the ASCII letters of s and leaves every other byte alone.
+func asciiLower(s string) string {
+	b := []byte(s)
+	for i, c := range b {
+		if 'A' <= c && c <= 'Z' {
+			b[i] = c + ('a' - 'A')
+		}
+	}
+	return string(b)
 }
 
 // Manager manages multiple cache instances
